@@ -105,6 +105,8 @@ def run(repo, res):
               'B(A), both assign self.m: after the instance table of B was computed, %s' % detail,
               sample='the assignment sites recorded for a base class are not extended by its subclasses')
 
+    from .. import resolve_model as _M
+    _M.check_dotted_imports(repo, res, 'C06-R3')
     # ---- R3 dispatch chains -------------------------------------------------------------------------
     check_dispatch(repo, res, facts)
 
@@ -190,7 +192,9 @@ def scenario(it, facts, body, inst):
     for c in MRO:
         objs[c].attrs['bases'] = [objs[b] for b in BASES[c]]
         if c in inst:
-            assigns[objs[c]] = {'m': ('inst', c)}
+            # what supp's own recorder stores for `self.m = ...` in a method of c: a MultiValue holding the assignment site
+            site = Obj(facts.classes['AssignedAttribute'], {'name': 'm'}, 'self.m = ... in ' + c)
+            assigns[objs[c]] = {'m': it.instantiate(facts.classes['MultiValue'], [_multivalue_arg(it.repo, site)], {})}
     d = objs[MRO[0]]
     # the answers are taken through the protocol the evaluator and assist use (get_attr / attr_list), whatever tables are behind it
     got_c = it.call(it.getattr(d, 'get_attr'), [ctx, 'm'], {})
@@ -203,7 +207,25 @@ def scenario(it, facts, body, inst):
         got_c = ('attr_list and get_attr disagree', got_c)
     if listed_i != (got_i is not None):
         got_i = ('attr_list and get_attr disagree', got_i)
+    elif isinstance(got_i, Obj) and got_i.cls.name == 'MultiValue':
+        vals = list(it.iterate(got_i.attrs.get('values') or []))
+        if vals and all(isinstance(v, Obj) and v.cls.name == 'AssignedAttribute' for v in vals):
+            got_i = ('inst', tuple(v.label for v in vals))
     return got_c, got_i
+
+
+def _multivalue_arg(repo, site):
+    """What supp's own SourceScope.assigns hands the MultiValue constructor for one assignment site: the site, or a display holding it."""
+    calls = [c for c in ast.walk(repo.tree('supp/scope.py')) if isinstance(c, ast.Call) and isinstance(c.func, ast.Name)
+             and c.func.id == 'MultiValue' and len(c.args) == 1]
+    if not calls:
+        raise AnalysisError('no MultiValue(...) construction in supp/scope.py: the anchor of the instance-attribute tables vanished')
+    a = calls[0].args[0]
+    if isinstance(a, (ast.List, ast.Tuple)) and len(a.elts) == 1:
+        return [site] if isinstance(a, ast.List) else (site,)
+    if isinstance(a, ast.Set) and len(a.elts) == 1:
+        return {site}
+    return site
 
 
 def sharing_scenario(it, facts):
@@ -221,7 +243,7 @@ def sharing_scenario(it, facts):
         objs[c] = o
         site = Obj(facts.classes['AssignedAttribute'], {'name': 'm'}, 'self.m = ... in ' + c)
         try:
-            mv = it.instantiate(MV, [site], {})
+            mv = it.instantiate(MV, [_multivalue_arg(it.repo, site)], {})
         except InterpRaise as e:
             return False, 'MultiValue(site) raises %s' % e
         mvs[c] = (mv, site)
